@@ -538,6 +538,15 @@ func systematicPkgCases(id *int, profile, scratch string, rng *rand.Rand, tier s
 			c.Entries = []Entry{plain, first, {Type: "file", Src: "src/app.conf", Dst: "/opt/demo/current/conf/app.conf"}, {Type: "dir", Dst: "/opt/demo/current/data"}}
 			add(c, smallTree(), "beneath-non-directory")
 		}
+		// an owner / group name no GNU tar header can hold (more than 32 bytes), on a declared directory, on a file: deb and ipk
+		// cannot ship the entry as declared and say so; rpm, apk and archlinux store the name
+		for vi, e := range []Entry{{Type: "dir", Dst: "/var/lib/longname", Fi: Fi{Owner: strings.Repeat("o", 40), Group: "g", Mode: 0o750}, HasFi: true},
+			{Type: "file", Src: "src/app.conf", Dst: "/etc/longname/app.conf", Fi: Fi{Owner: "own", Group: strings.Repeat("g", 33)}, HasFi: true},
+			{Type: "config", Src: "src/extra.conf", Dst: "/etc/longname/extra.conf", Fi: Fi{Owner: strings.Repeat("t", 64), Group: "g"}, HasFi: true}} {
+			c := baseCfg("longname")
+			c.Entries = []Entry{plain, e}
+			add(c, smallTree(), fmt.Sprintf("name-over-gnu-limit-%d", vi))
+		}
 		// a custom control field that names the size the packager computes itself: the package states the computed one
 		for _, big := range []bool{false, true} {
 			c := baseCfg("sizefield")
